@@ -16,6 +16,11 @@ Inductive c11_op :=
     (* handle(KittyImage { id, placement, error }); lost: the terminal side is taken to have lost the image *)
 | COther.                                       (* handle(some other event) *)
 
+(* calls whose sink may fail: budget = Some b: the writer accepts b bytes in all, then every write is an error *)
+Inductive c11_fop :=
+| FDraw (k : nat) (pos : N * N) (budget : option N)
+| FErase (k : nat) (pos : option (N * N)).
+
 (* image as the implementation holds it (backing data, shape), the value of Surface::hash,
    and the index of its content in the case's content table *)
 Definition c11_img : Type := (image * N * nat)%type.
@@ -26,6 +31,9 @@ Inductive c11_case :=
     (* a history on one KittyImageHandler, called directly or through Box<dyn ImageHandler> *)
 | CaseDummy (imgs : list c11_img) (ops : list c11_op) (impl : list (list N * N))
     (* the same calls on a DummyImageHandler *)
+| CaseFail (quiet : bool) (imgs : list c11_img) (contents : list content)
+           (ops : list c11_fop) (impl : list (list N * N))
+    (* draw / erase calls of which some draws write into a sink that accepts `budget` bytes and then fails *)
 | CaseKind (s : list N) (impl : option N)
     (* s.parse::<ImageHandlerKind>(): Some 0 / 1 / 2 = Kitty / Sixel / Dummy, None = Err *)
 | CaseKindOf (dummy : bool) (impl : N).
@@ -49,12 +57,134 @@ Definition spec_op (imgs : list c11_img) (o : c11_op) : sop :=
   | COther => SOther
   end.
 
+(* ---------- sinks that fail ----------
+   Model: draw writes its bytes front to back through write_all; a sink with budget b takes the first b of
+   them and the call returns the error (2).  The image is filed as transmitted only after the last chunk
+   has been written: when the sink gave out during the transmission the handler does not count the
+   image as transmitted (the id stays assigned) *)
+Definition model_fstep (imgs : list c11_img) (st : kitty) (o : c11_fop) : (list N * N) * kitty :=
+  match o with
+  | FErase k pos => let '(im, h, _) := nth k imgs dummy_img in step st (OpErase im h pos)
+  | FDraw k pos budget =>
+      let '(im, h, _) := nth k imgs dummy_img in
+      let '(bytes, st') := draw st im h pos in
+      match budget with
+      | None => ((bytes, 0), st')
+      | Some b =>
+          if N.of_nat (length bytes) <=? b then ((bytes, 0), st')
+          else
+            let id := image_id st h in
+            let q := match k_suppress st with Some x => x | None => 0 end in
+            let place_len := length (gfx (kvs_put id (placement_id pos) q) true []) in
+            let tx_len := N.of_nat (length bytes - place_len) in
+            let was_cached := match lookup id (k_imgs st) with Some _ => true | None => false end in
+            ((firstn (N.to_nat b) bytes, 2),
+             if was_cached || (tx_len <=? b) then st' else mkKitty (k_imgs st) (k_ids st') (k_suppress st))
+      end
+  end.
+
+Fixpoint model_frun (imgs : list c11_img) (st : kitty) (ops : list c11_fop) : list (list N * N) :=
+  match ops with
+  | [] => []
+  | o :: r => let '(out, st') := model_fstep imgs st o in out :: model_frun imgs st' r
+  end.
+
+(* Terminal side: what a terminal makes of a stream that breaks off: the complete commands (up to the last
+   ESC \) are read, the rest is lost, and a chunked transmission left open is discarded *)
+Fixpoint last_complete (l : list N) (pos best : nat) : nat :=
+  match l with
+  | a :: r =>
+      match r with
+      | b :: _ => if (a =? 27) && (b =? 92) then last_complete r (S pos) (pos + 2)%nat else last_complete r (S pos) best
+      | [] => best
+      end
+  | [] => best
+  end.
+Definition complete_part (l : list N) : list N := firstn (last_complete l 0 0) l.
+Definition abort_pending (s : tstore) : tstore :=
+  mkStore (t_images s) (t_places s) None (t_cursor s) (t_saved s) (t_sent s) (t_errs s).
+
+Definition last_put_id (its : list item) : option N :=
+  match rev its with
+  | IGfx kvs _ :: _ =>
+      match kv_chr k_a kvs 116, kv_num k_i kvs 0 with
+      | Some 112, Some i => Some i
+      | _, _ => None
+      end
+  | _ => None
+  end.
+
+(* predicate over such a history, from the terminal's side: a call whose sink held returns Ok, and a draw
+   then leaves a placement of an image the terminal holds with exactly the pixels and size of the content
+   drawn; a call whose sink gave out returns the error and has written no more than the sink took; the
+   terminal never sees a protocol error (in particular no placement of an image it was never sent in full) *)
+Fixpoint check_fail (contents : list content) (cids : list nat) (s : tstore) (ops : list c11_fop)
+         (impl : list (list N * N)) : N :=
+  match ops, impl with
+  | [], [] => 0
+  | o :: ops', (bytes, ret) :: impl' =>
+      match o with
+      | FErase _ _ =>
+          match parse_stream bytes with
+          | None => 401
+          | Some its =>
+              let s' := store_run (clear_log s) its in
+              if negb (ret =? 0) then 402
+              else match t_errs s', t_pending s' with
+                   | [], None => check_fail contents cids s' ops' impl'
+                   | _, _ => 403
+                   end
+          end
+      | FDraw k _ budget =>
+          let within := match budget with Some b => N.of_nat (length bytes) <=? b | None => true end in
+          if negb within then 404
+          else if ret =? 0 then
+            match parse_stream bytes with
+            | None => 405
+            | Some its =>
+                let s' := store_run (clear_log s) its in
+                match t_errs s', t_pending s' with
+                | [], None =>
+                    match nth_error contents (nth k cids O) with
+                    | None => 406
+                    | Some c =>
+                        if (c_w c =? 0) || (c_h c =? 0) then
+                          match bytes with [] => check_fail contents cids s' ops' impl' | _ => 407 end
+                        else
+                          match last_put_id its with
+                          | None => 408
+                          | Some i =>
+                              match img_lookup i (t_images s') with
+                              | Some ti => if timage_eqb ti c then check_fail contents cids s' ops' impl' else 409
+                              | None => 410
+                              end
+                          end
+                    end
+                | _, _ => 411
+                end
+            end
+          else if ret =? 2 then
+            match budget, parse_stream (complete_part bytes) with
+            | Some _, Some its =>
+                let s' := abort_pending (store_run (clear_log s) its) in
+                match t_errs s' with
+                | [] => check_fail contents cids s' ops' impl'
+                | _ => 412
+                end
+            | _, _ => 413
+            end
+          else 414
+      end
+  | _, _ => 415
+  end.
+
 Definition out_eqb (a b : list N * N) : bool := nlist_eqb (fst a) (fst b) && (snd a =? snd b).
 
 Definition c11_model (c : c11_case) : list (list N * N) :=
   match c with
   | Case quiet imgs _ ops _ => run (kitty_new quiet) (map (model_op imgs) ops)
   | CaseDummy imgs ops _ => dummy_run (map (model_op imgs) ops)
+  | CaseFail quiet imgs _ ops _ => model_frun imgs (kitty_new quiet) ops
   | _ => []
   end.
 
@@ -62,6 +192,7 @@ Definition c11_model (c : c11_case) : list (list N * N) :=
 Definition c11_code (c : c11_case) : N :=
   match c with
   | Case _ imgs contents ops impl => check_history contents track0 (map (spec_op imgs) ops) impl
+  | CaseFail _ imgs contents ops impl => check_fail contents (map snd imgs) store0 ops impl
   | CaseDummy _ ops impl =>
       (* "image handler which ignores requests": every call returns normally and writes nothing *)
       if Nat.eqb (length impl) (length ops) &&
@@ -87,6 +218,8 @@ Definition hashes_agree (imgs : list c11_img) : bool :=
 Definition c11_check (c : c11_case) : bool * bool :=
   match c with
   | Case _ imgs _ _ impl =>
+      (list_eqb out_eqb (c11_model c) impl && hashes_agree imgs, c11_code c =? 0)
+  | CaseFail _ imgs _ _ impl =>
       (list_eqb out_eqb (c11_model c) impl && hashes_agree imgs, c11_code c =? 0)
   | CaseDummy _ _ impl => (list_eqb out_eqb (c11_model c) impl, c11_code c =? 0)
   | CaseKind s impl =>
